@@ -5,8 +5,15 @@
   the Spec map restricted to that region).  Every theorem quantifies over ALL scripts, i.e. over every sequence of
   region layouts seen by the partial requests of one call (the layout may change between any two partial requests),
   every interleaving of region errors / retries, and — for batches — every (possibly stale) grouping layout and every
-  pattern of failed batches that are re-grouped recursively.  They are partial-correctness statements: the hypothesis
-  `… = some r` says that the call returned (the script did not run out); termination is `…_terminates` below.
+  pattern of failed batches that are re-grouped recursively.
+  * `…_eq_…`, `…_exact`, `…_positional`, `…_last_wins`: partial correctness (hypothesis `… = some r`: the call returned).
+  * `…_terminates`, `…_total`: the call returns, with the map's answer, once the layout stays constant (Scan, ReverseScan,
+    Checksum, DeleteRange), for every complete run (`Completes`: batch calls), with one served attempt (single-key calls).
+  * `…_every_store_…`: what holds in every intermediate store of the NON-atomic calls (BatchPut, BatchDelete,
+    DeleteRange), also when they end with an error — the served region requests are the linearisation points.
+  * `client_refines_one_ordered_map`: whole operation sequences.
+  Not modelled (see manifest): TTL expiry, several concurrent clients, the back-off budget (a call that does not
+  complete is a script that runs out).
 -/
 import ClientGoVerif.Proofs.RawKV
 namespace CGV.Props.C11
@@ -463,6 +470,143 @@ theorem reverse_scan_eq_last_limit_reversed (m : Store) (hs : m.Sorted) (sc : SS
   unfold OMap.rrange
   exact List.take_reverse
 
+/-! ### whole operation sequences: the client (any layouts, any changes between and during calls) refines ONE ordered map -/
+
+theorem batch_put_eq_sequential_puts (m : Store) (hs : m.Sorted) (sc : BScript) (items : List Item) (m' : Store)
+    (tr : List (List Item × Bool)) (h : batchPut m sc items = some (m', tr)) :
+    m' = items.foldl (fun a it => a.insert it.1 it.2) m := by
+  have hsorted : m'.Sorted := by
+    have := sendBatch_inv (IAll OMap.Sorted) (fun _ => True) mkPutBatches lastWins execPut mkPutBatches_spec
+      (fun _ _ _ _ => trivial) (fun s R b hI _ => put_served_sorted s R b hI) (fun s b hI => IAll_failed _ s b hI)
+      (sc.length + 1) (BState.init m) items sc
+      (by intro st hst; simp only [BState.stores, BState.init, List.mem_cons, List.not_mem_nil, or_false] at hst
+          rw [hst]; exact hs)
+      (fun _ _ => trivial)
+    unfold batchPut at h
+    split at h
+    · simp at h
+    · rename_i s sc' hr
+      simp only [Option.some.injEq, Prod.mk.injEq] at h
+      rw [← h.1]
+      have hh := this s.store
+      unfold batchPutRun at hr
+      rw [hr] at hh
+      exact hh (by simp [BState.stores])
+  exact OMap.ext_of_sorted hsorted (foldl_ins_sorted items m hs) (batch_put_last_wins m sc items m' tr h)
+
+theorem batch_delete_eq_sequential_deletes (m : Store) (hs : m.Sorted) (sc : BScript) (keys : List Bytes) (m' : Store)
+    (tr : List (List Item × Bool)) (h : batchDelete m sc keys = some (m', tr)) :
+    m' = keys.foldl (fun a k => a.erase k) m := by
+  have hsorted : m'.Sorted := by
+    have := sendBatch_inv (IAll OMap.Sorted) (fun _ => True) mkKeyBatches id execDelete mkKeyBatches_spec
+      (fun _ _ _ _ => trivial) (fun s R b hI _ => delete_served_sorted s R b hI) (fun s b hI => IAll_failed _ s b hI)
+      (sc.length + 1) (BState.init m) (keys.map fun k => (k, [])) sc
+      (by intro st hst; simp only [BState.stores, BState.init, List.mem_cons, List.not_mem_nil, or_false] at hst
+          rw [hst]; exact hs)
+      (fun _ _ => trivial)
+    unfold batchDelete at h
+    split at h
+    · simp at h
+    · rename_i s sc' hr
+      simp only [Option.some.injEq, Prod.mk.injEq] at h
+      rw [← h.1]
+      have hh := this s.store
+      unfold batchDeleteRun at hr
+      rw [hr] at hh
+      exact hh (by simp [BState.stores])
+  refine OMap.ext_of_sorted hsorted (foldl_erase_sorted keys m hs) (fun k => ?_)
+  rw [batch_delete_exact m sc keys m' tr h k, foldl_erase_get]
+
+/-- one call: whatever the observations (layouts per attempt, region errors, grouping layouts, failed batches), a
+    call that completes returns the map's result and leaves the map's new state (and a sorted one) -/
+theorem client_step_refines (m : Store) (hs : m.Sorted) (o : Obs) (c : Call) (r : Store × Result)
+    (h : clientStep m o c = some r) : r = specStep m c ∧ r.1.Sorted := by
+  cases c with
+  | get k =>
+    simp only [clientStep, Option.map_eq_some_iff] at h
+    obtain ⟨x, hx, rfl⟩ := h
+    exact ⟨by simp [specStep, get_eq m _ k x hx], hs⟩
+  | put k v =>
+    simp only [clientStep, Option.map_eq_some_iff] at h
+    obtain ⟨x, hx, rfl⟩ := h
+    rw [put_eq m _ k v x hx]
+    exact ⟨rfl, OMap.insert_sorted hs k v⟩
+  | delete k =>
+    simp only [clientStep, Option.map_eq_some_iff] at h
+    obtain ⟨x, hx, rfl⟩ := h
+    rw [delete_eq m _ k x hx]
+    exact ⟨rfl, OMap.erase_sorted hs k⟩
+  | cas k prev new =>
+    simp only [clientStep, Option.map_eq_some_iff] at h
+    obtain ⟨⟨m', cur, sw⟩, hx, rfl⟩ := h
+    obtain ⟨h1, h2, h3⟩ := cas_eq m _ k prev new m' cur sw hx
+    have hsw : sw = decide (m.get k = prev) := by
+      by_cases hp : m.get k = prev
+      · simp [hp, h2.mpr hp]
+      · have : sw = false := by cases sw <;> simp_all
+        simp [hp, this]
+    refine ⟨by simp [specStep, h1, h3, hsw], ?_⟩
+    simp only [h3]
+    split
+    · exact OMap.insert_sorted hs k new
+    · exact hs
+  | batchGet keys =>
+    simp only [clientStep, Option.map_eq_some_iff] at h
+    obtain ⟨⟨vals, tr⟩, hx, rfl⟩ := h
+    exact ⟨by simp [specStep, batch_get_positional m _ keys vals tr hx], hs⟩
+  | batchPut items =>
+    simp only [clientStep, Option.map_eq_some_iff] at h
+    obtain ⟨⟨m', tr⟩, hx, rfl⟩ := h
+    have := batch_put_eq_sequential_puts m hs _ items m' tr hx
+    exact ⟨by simp [specStep, this], by simp only [this]; exact foldl_ins_sorted items m hs⟩
+  | batchDelete keys =>
+    simp only [clientStep, Option.map_eq_some_iff] at h
+    obtain ⟨⟨m', tr⟩, hx, rfl⟩ := h
+    have := batch_delete_eq_sequential_deletes m hs _ keys m' tr hx
+    exact ⟨by simp [specStep, this], by simp only [this]; exact foldl_erase_sorted keys m hs⟩
+  | scan s e limit ko =>
+    simp only [clientStep, Option.map_eq_some_iff] at h
+    obtain ⟨⟨res, tr⟩, hx, rfl⟩ := h
+    exact ⟨by simp [specStep, scan_eq_take_limit_range m hs _ s e limit ko res tr hx], hs⟩
+  | reverseScan s e limit ko =>
+    simp only [clientStep, Option.map_eq_some_iff] at h
+    obtain ⟨⟨res, tr⟩, hx, rfl⟩ := h
+    exact ⟨by simp [specStep, reverse_scan_eq_take_limit_rrange m hs _ s e limit ko res tr hx], hs⟩
+  | deleteRange s e =>
+    simp only [clientStep, Option.map_eq_some_iff] at h
+    obtain ⟨⟨res, tr⟩, hx, rfl⟩ := h
+    have := (delete_range_exact m _ s e res tr hx).1
+    exact ⟨by simp [specStep, this], by simp only [this]; exact OMap.eraseRange_sorted hs _ _⟩
+  | checksum s e =>
+    simp only [clientStep, Option.map_eq_some_iff] at h
+    obtain ⟨⟨c, tr⟩, hx, rfl⟩ := h
+    exact ⟨by simp [specStep, checksum_eq_fold m hs _ s e c tr hx], hs⟩
+
+/-- THE property: for every operation sequence, every region layout sequence and every topology change between or
+    during the calls (all contained in the per-call observations), if the calls complete then their results and the
+    final contents are those of the same operations on a single ordered map. -/
+theorem client_refines_one_ordered_map (m : Store) (hs : m.Sorted) (calls : List (Call × Obs))
+    (out : Store × List Result) (h : clientRun m calls = some out) :
+    out = specRun m (calls.map (·.1)) := by
+  induction calls generalizing m out with
+  | nil =>
+    simp only [clientRun, Option.some.injEq] at h
+    rw [← h]; rfl
+  | cons co cs ih =>
+    obtain ⟨c, o⟩ := co
+    simp only [clientRun] at h
+    split at h
+    · simp at h
+    · rename_i r hr
+      split at h
+      · simp at h
+      · rename_i t ht
+        simp only [Option.some.injEq] at h
+        obtain ⟨h1, h2⟩ := client_step_refines m hs o c r hr
+        have := ih r.1 h2 t ht
+        rw [← h, this, h1]
+        rfl
+
 /-! ### non-vacuity: a sorted three-key map, a split in the middle of the call, a region error, a re-grouped batch -/
 
 def m0 : Store := ((OMap.empty.insert [0x6b] [1]).insert [0x6d] [2]).insert [0x70] [3]
@@ -504,5 +648,11 @@ example : some [[0x6c]] ∈ ([none, some [[0x6c]], none] : SScript) := by simp
 -- and is re-grouped (no split point any more) into one served batch
 example : Completes mkKeyBatches id (mkKeyBatches [[0x6c]] [([0x6b], []), ([0x70], [])]) [true, false] [⟨[], [true]⟩] [] :=
   Completes.served (Completes.regrouped (Completes.served (Completes.nil _)) (Completes.nil _))
+
+-- a completed call sequence: put, a batch put with a region error and a re-grouping, a scan across a split made during it
+example : ∃ out, clientRun m0
+    [(.put [0x61] [9], ⟨[none, some [[0x6c]]], []⟩),
+     (.batchPut [([0x6b], [5]), ([0x70], [6]), ([0x6b], [7])], ⟨[], [⟨[[0x6c]], [false, true]⟩, ⟨[], [true]⟩]⟩),
+     (.scan [] [] 3 false, ⟨[some [[0x6c]], none, some [[0x6c], [0x6e]], some []], []⟩)] = some out := ⟨_, rfl⟩
 
 end CGV.Props.C11
